@@ -29,7 +29,7 @@ BUDGET = {
     "thorough": {"runs": 1000000, "wall": 840, "chunk": 50, "shrink_evals": 600},
 }
 
-FAULT_KINDS = ["interleave", "clock_jump", "disk_error", "peer_fail"]
+FAULT_KINDS = ["interleave", "clock_jump", "disk_error", "peer_fail", "abort"]
 
 PROBES = [
     "default_scale_shared_by_ge_3", "export_after_later_construction", "reexport",
@@ -40,6 +40,7 @@ PROBES = [
     "torn_write_left_partial_file", "four_slots", "construct_raised_both",
     "export_raised_both", "mixed_directions", "labella_options_differ",
     "export_multilayer", "export_ge_3_layers", "export_with_lineSpacing",
+    "abort_inside_export", "abort_inside_construct",
 ]
 
 RULE = (
@@ -214,7 +215,7 @@ def gen_plan(rng, tier):
         "ranges": rng.choice(["far", "far", "overlap"]),
         "default_p": rng.choice([0.5, 0.8, 1.0]),
         "peer_p": rng.choice([0.0, 0.0, 0.3]),
-        "faults": {k: rng.random() < 0.5 for k in ("disk", "peer", "clock")},
+        "faults": {k: rng.random() < 0.5 for k in ("disk", "peer", "clock", "abort")},
     }
     if rng.random() < 0.3:
         swarm["faults"] = {k: False for k in swarm["faults"]}
@@ -227,13 +228,23 @@ def gen_plan(rng, tier):
     while len(ops) < nops:
         i = rng.randrange(nslots)
         r = rng.random()
+        def abort_fault(p):
+            if swarm["faults"]["abort"] and rng.random() < p:
+                return {"kind": "abort", "frac": rng.randrange(0, 1000000),
+                        "scope": rng.choice(["any", "any", "timeline.py", "vpsc.py", "scale.py", "d3_time.py",
+                                             "renderer.py", "force.py"]),
+                        "exc": rng.choice(["SimAbort", "MemoryError", "KeyboardInterrupt"])}
+            return None
+
         if not constructed[i]:
             if r < 0.8:
-                ops.append(["construct", i])
-                constructed[i] = True
+                f = abort_fault(0.08)
+                ops.append(["construct", i] + ([f] if f else []))
+                constructed[i] = f is None
             continue
         if r < 0.45:
-            ops.append(["export", i])
+            f = abort_fault(0.2)
+            ops.append(["export", i] + ([f] if f else []))
         elif r < 0.65:
             nfile += 1
             ext = ".svg" if slots[i]["backend"] == "svg" else ".tex"
@@ -245,6 +256,8 @@ def gen_plan(rng, tier):
                          "errno": rng.choice([errno.ENOSPC, errno.EIO])}
             elif swarm["faults"]["peer"] and is_tex and rng.random() < 0.6:
                 fault = {"kind": rng.choice(["peer_exit", "peer_missing"])}
+            elif swarm["faults"]["abort"] and rng.random() < 0.2:
+                fault = abort_fault(1.0)
             if fault and fault["kind"] in ("disk_copy", "peer_exit", "peer_missing"):
                 build_pdf = True  # place the fault inside an operation that reaches the peer
             ops.append(["export_file", i, "/simfs/out%d_%d%s" % (i, nfile, ext), build_pdf, fault])
@@ -404,6 +417,25 @@ def _run(plan):
             spec = specs[i]
             if ever_constructed[i] and not replaced[i]:
                 bump("probe:reconstruct_same_spec")
+            cfault = op[2] if len(op) > 2 and op[2] else None
+            c_faulted = False
+            if cfault:
+                bump("fault:abort:configured")
+                obj, tr = _traced(cfault, lambda: _construct(spec), lambda: _construct(spec))
+                r0 = len(clock.readings)  # readings of the real attempt only matter if it completed
+                if tr.fired:
+                    bump("fault:abort:fired")
+                    bump("probe:abort_inside_construct")
+                    c_faulted = True
+                    objs[i] = None
+                    outcome = "aborted"
+                    # a construction that did not complete leaves no object; whatever
+                    # it left behind in the process is what the next operations meet
+                    for j in range(n):
+                        if j != i and objs[j] is not None:
+                            foreign[j] += 1
+                    log.append([step, kind, i, outcome])
+                    continue
             r0 = len(clock.readings)
             calls0 = peer.calls
             try:
@@ -455,7 +487,10 @@ def _run(plan):
             else:
                 spec = specs[i]
                 faulted = False
-                fault = op[4] if kind == "export_file" else None
+                fault = op[4] if kind == "export_file" else (op[2] if len(op) > 2 else None)
+                afault = fault if fault and fault["kind"] == "abort" else None
+                if afault:
+                    fault = None
                 if fault:
                     fk = fault["kind"]
                     if fk == "disk_open":
@@ -470,7 +505,22 @@ def _run(plan):
                         peer.arm("missing")
                     bump("fault:%s:configured" % ("peer_fail" if fk.startswith("peer") else "disk_error"))
                 nf_fs, nf_peer = len(fs.fired), len(peer.fired)
-                res = _do_export(objs[i], spec, fs, op)
+                if afault:
+                    bump("fault:abort:configured")
+                    clone = copy.deepcopy(objs[i])
+                    res, tr = _traced(afault, lambda: clone.export(),
+                                      lambda: _do_export(objs[i], spec, fs, op))
+                    if tr.fired:
+                        faulted = True
+                        bump("fault:abort:fired")
+                        bump("probe:abort_inside_export")
+                    if res is None:
+                        res = {"ret": ["raise", "aborted"]}
+                        if kind == "export_file":
+                            res["file"] = None
+                            res["pdf"] = None
+                else:
+                    res = _do_export(objs[i], spec, fs, op)
                 if fault:
                     fs.disarm()
                     peer.disarm()
@@ -522,6 +572,41 @@ def _run(plan):
         log.append([step, kind, op[1] if kind != "clock_advance" else None, outcome])
     stats["ops"] = len(log)
     return {"events": events, "stats": stats, "log": log}
+
+
+EXC = {"SimAbort": seams.SimAbort, "MemoryError": MemoryError, "KeyboardInterrupt": KeyboardInterrupt}
+
+
+def _traced(fault, dry, real):
+    """Run real() with an exception injected at a seeded fraction of the line
+    events that dry() executes inside labella.  Returns (result or None,
+    tracer)."""
+    counter = seams.AbortTracer(-1, fault["scope"])
+    with counter:
+        try:
+            dry()
+        except Exception:
+            pass
+    scope = fault["scope"]
+    total = counter.n
+    if total == 0:
+        scope = "any"
+        counter = seams.AbortTracer(-1, "any")
+        with counter:
+            try:
+                dry()
+            except Exception:
+                pass
+        total = counter.n
+    k = 1 + (total * fault["frac"]) // 1000000
+    tr = seams.AbortTracer(k, scope, EXC[fault["exc"]])
+    res = None
+    try:
+        with tr:
+            res = real()
+    except (seams.SimAbort, KeyboardInterrupt, MemoryError):
+        res = None
+    return res, tr
 
 
 def _reference(job):
@@ -627,7 +712,7 @@ def execute(plan):
                                           "reexport_number": ev["reexport"], "backend": ev["spec"]["backend"],
                                           "scale": ev["spec"]["scale"]}})
     counters["checked_steps"] = judged
-    fired = sum(st.get("fault:%s:fired" % k, 0) for k in ("clock_jump", "disk_error", "peer_fail"))
+    fired = sum(st.get("fault:%s:fired" % k, 0) for k in ("clock_jump", "disk_error", "peer_fail", "abort"))
     counters["runs_fault_injecting" if fired else "runs_fault_free"] = 1
     owners = [o[1] for o in plan["ops"] if o[0] == "construct" and o[1] < len(plan["slots"])]
     sets = {
@@ -692,6 +777,10 @@ def simplifiers(plan, prop):
                 p = copy.deepcopy(plan)
                 p["ops"][k][2] = s
                 yield p
+        if op[0] in ("export", "construct") and len(op) > 2:
+            p = copy.deepcopy(plan)
+            p["ops"][k] = op[:2]
+            yield p
         if op[0] == "export_file":
             if op[4]:
                 p = copy.deepcopy(plan)
